@@ -375,14 +375,6 @@ reuse(FILE *o)
 }
 
 
-#include <setjmp.h>
-static sigjmp_buf reuse_jmp;
-static void
-reuse_segv(int sig)
-{
-        (void) sig;
-        siglongjmp(reuse_jmp, 1);
-}
 /* ---------- the output must not depend on WHERE the context lives: the same one-shot and streaming compression with the isal_zstream at many
  * different addresses (64 KiB apart, so that every address bit above the page offset varies); distinct outputs are dumped for TLC to compare ---------- */
 static void
@@ -519,6 +511,66 @@ stateless_reuse(FILE *o)
                                 dump(o, name, outB, ret == COMP_OK ? sizeof(outB) - z->avail_out : 0, ret);
                                 free(z);
                         }
+}
+
+#include <setjmp.h>
+static sigjmp_buf reuse_jmp;
+static void
+reuse_segv(int sig)
+{
+        (void) sig;
+        siglongjmp(reuse_jmp, 1);
+}
+/* ---------- a one-shot call at level 1 may borrow the context's own buffer when level_buf is NULL: the caller's level_buf / level_buf_size must read
+ * the same afterwards, and a streaming call after isal_deflate_reset must treat the missing level buffer exactly like a fresh context does ---------- */
+static void
+null_level_buf_reuse(FILE *o)
+{
+        static unsigned char in[3000], out[8000];
+        int h, i;
+        for (i = 0; i < 3000; i++)
+                in[i] = "level one without a level buffer "[i % 33] ^ (unsigned char) (i >> 9);
+        for (h = 0; h < 2; h++) {
+                struct isal_zstream *z = calloc(1, sizeof(*z));
+                unsigned char rec[16];
+                int r1 = 0, r2;
+                char name[64];
+                if (h == 1) {
+                        isal_deflate_stateless_init(z);
+                        z->level = 1;
+                        z->level_buf = NULL;
+                        z->level_buf_size = 0;
+                        z->next_in = in;
+                        z->avail_in = 3000;
+                        z->next_out = out;
+                        z->avail_out = sizeof(out);
+                        z->end_of_stream = 1;
+                        r1 = isal_deflate_stateless(z);
+                        rec[0] = z->level_buf != NULL; /* the caller's field */
+                        rec[1] = z->level_buf_size != 0;
+                        isal_deflate_reset(z);
+                } else {
+                        isal_deflate_init(z);
+                        rec[0] = rec[1] = 0;
+                }
+                z->level = 1;
+                z->next_in = in;
+                z->avail_in = 3000;
+                z->next_out = out;
+                z->avail_out = sizeof(out);
+                z->end_of_stream = 1;
+                z->flush = NO_FLUSH;
+                if (sigsetjmp(reuse_jmp, 1))
+                        r2 = -99; /* crashed */
+                else
+                        r2 = isal_deflate(z);
+                rec[2] = (unsigned char) r1;
+                rec[3] = (unsigned char) r2;
+                rec[4] = (unsigned char) (z->total_out & 255);
+                sprintf(name, "nulllbuf-history%d", h);
+                dump(o, name, rec, 5, 0);
+                free(z);
+        }
 }
 
 /* ---------- reuse, decompressor: (history, isal_inflate_reset) versus a fresh context, for several histories and follow-up uses ---------- */
@@ -935,6 +987,7 @@ main(int argc, char **argv)
                 stateless_reuse(o);
                 signal(SIGSEGV, reuse_segv);
                 signal(SIGBUS, reuse_segv);
+                null_level_buf_reuse(o);
                 inflate_reuse(o);
                 fclose(o);
                 return 0;
